@@ -59,6 +59,14 @@ INFO = {
  "C16d": ("mod_n_add carry branch corrects with u256_sub instead of u256_add", "H1 + k >= 2^256 (master scalar above 2^256 - N): extracted keys are wrong"),
  "C19d": ("Sm2PrivateKey::to_hex_string formats through BigUint::to_str_radix(16)", "d < 2^252: fewer than 64 hex digits, from_hex_string(to_hex_string()) fails"),
  "C20d": ("block_add_one rewritten as u128::from_be_bytes(ctr) + 1 (plain `+`)", "CTR with an IV of 2^128 - k and at least 16k bytes of data: overflow panic"),
+ "C01d": ("sm3_hash iterates a precomputed number of blocks (len + 8 + 63) / 64 that forgets the 0x80 byte", "a message of length 56 mod 64: the final block holding the length is never compressed"),
+ "C02d": ("round function `t` returns 0 for a zero input word ('L is linear')", "a round whose input word X1^X2^X3^rk is exactly 0 (2^-27 per block): wrong ciphertext, decrypt does not invert encrypt"),
+ "C04d": ("compute_za appends the ID by characters (`c as u8`) instead of bytes", "non-ASCII signer IDs: two IDs whose code points agree modulo 256 give the same ZA, a signature verifies under the other ID"),
+ "C05d": ("encrypt's all-zero key-stream test loops over x2||y2 instead of the KDF output", "KDF(x2||y2, |M|) all zero (1/256 for one-byte messages): the message is sent in the clear and decrypt rejects it"),
+ "C06d": ("from_byte (compressed) reads the parity of y from its Montgomery form", "a compressed C1 (about half of all points): the tag bit selects the other root, a flipped tag bit decrypts"),
+ "C10d": ("SM9 kdf sets the counter from the loop index and drops the trailing increment: the last block repeats the one before", "KDF output beyond 256 bytes, i.e. messages of 225..255 bytes: K2 / C3 not those of GM/T 0044.4"),
+ "C12d": ("fp_line_mul builds the sparse element with -lw[2] (the y_P coefficient of every line negated)", "every input: e'(P,Q) = e(P,Q)^-1 - bilinear, non-degenerate, all round trips succeed"),
+ "C17d": ("exch_step_1b / 2a assemble the KDF input as ID_B || ID_A || ... on both sides", "any two identities with ID_A||ID_B != ID_B||ID_A: both sides agree on a key that is not the GM/T 0044.3 key"),
  "C07b": ("CBC decrypt bounds the PKCS#7 pad byte by the ciphertext length instead of the block size", "a ciphertext of two or more blocks whose last decrypted byte is 17..min(255, length): accepted and truncated instead of an error"),
  "C08b": ("ZUC S-box S0[0x17] changed from 0xa5 to 0xa6", "a byte 0x17 entering S0 inside F (the EEA/EIA vectors in the crate never do; the three published keystream vectors do)"),
  "C10b": ("SM9 decrypt compares only min(|C2|, 32) bytes of C3", "a message shorter than 32 bytes and a C3 modified at a byte index >= |M|"),
